@@ -16,6 +16,9 @@ pub mod verif_std {
     pub assume_specification<T: std::cmp::Ord + std::marker::Destruct> [std::cmp::max] (a: T, b: T) -> (r: T)
         ensures r == a || r == b;
 
+    pub assume_specification<'a, T: Copy> [std::option::Option::<&T>::copied] (o: Option<&'a T>) -> (r: Option<T>)
+        ensures r == (match o { Some(x) => Some(*x), None => None::<T> });
+
     pub assume_specification<T: Clone> [<[T] as std::borrow::ToOwned>::to_owned] (s: &[T]) -> (r: Vec<T>)
         ensures r@ == s@;
 
@@ -119,6 +122,12 @@ pub mod verif_std {
 
     // Iterator::max over u32 items (vstd has no specification for it); the iterator argument is
     // not modelled, so the result is only known to be an Option
+    pub uninterp spec fn iter_min_spec<I>(i: I) -> Option<u32>;
+    pub uninterp spec fn iter_last_spec<I>(i: I) -> Option<u32>;
+    #[verifier::external_body]
+    pub fn verif_iter_min<I: Iterator<Item = u32>>(i: I) -> (r: Option<u32>) ensures r == iter_min_spec(i) { i.min() }
+    #[verifier::external_body]
+    pub fn verif_iter_last<I: Iterator<Item = u32>>(i: I) -> (r: Option<u32>) ensures r == iter_last_spec(i) { i.last() }
     pub uninterp spec fn iter_max_spec<I>(i: I) -> Option<u32>;
     #[verifier::external_body]
     pub fn verif_iter_max<I: Iterator<Item = u32>>(i: I) -> (r: Option<u32>) ensures r == iter_max_spec(i) { i.max() }
